@@ -232,7 +232,8 @@ CLAIMED = {
              'lark parses it as written.',
         ref='3-C10',
         note='trusted: lark raises only UnexpectedToken / '
-             'UnexpectedCharacters on malformed input; the value of pos '
+             'UnexpectedCharacters on malformed input; that lark\'s position '
+             'is the offending index (decided: it is handed on unchanged) '
              'and the lexer\'s splitting of glued tokens are run-time '
              'matters, not decided',
         technique='grammar sort typing (least fixpoint), slot/alias '
@@ -277,7 +278,9 @@ CLAIMED = {
              'the root and every popped node are yielded and closed and the '
              'pop loop compares discovery times; a non-root is pushed; the '
              'argument is not modified; the yielded list is not used by the '
-             'generator after the yield (use-after analysis); the DiGraph '
+             'generator after the yield (use-after analysis); the '
+             'successor scan of the post-order step has no early exit and '
+             'the closed set is never shrunk; the DiGraph '
              'mutators keep every edge end registered as a node, graphs '
              'derived from G (clone / reversed / subgraph, Kripke.clone) '
              'share no successor set with it, and nodes '
